@@ -653,22 +653,25 @@ func genMut(t *rapid.T, s *sxgkit.Spec) (Mut, string) {
 	return m, tm
 }
 
-func TestPropTamper(t *testing.T) {
-	prop.Rapid(t, func(t *rapid.T) Case {
-		s := sxgkit.GenSpec(t)
-		// keep payloads moderate: tamper search benefits from many small cases
-		if s.PayloadLen > 5000 {
-			s.PayloadLen = s.PayloadLen % 5000
-		}
-		if s.Expires-s.Date < 4 {
-			s.Expires = s.Date + 4 // room for date+1 / expires-1 instants
-		}
-		m, tm := genMut(t, s)
-		if s.Fixture == 5 && m.Class == "fetcher" && m.Fixture == 3 {
-			m.Fixture = 2
-		}
-		return Case{Spec: *s, Mut: m, Time: tm, Parsed: rapid.Bool().Draw(t, "parsed"), SigCopies: rapid.SampledFrom([]int{0, 0, 0, 2, 3}).Draw(t, "sigcopies")}
-	})
+func TestPropTamper(t *testing.T) { prop.Rapid(t, genPropTamper) }
+
+// TestConcTamper: batches of cases evaluated at the same time on separate goroutines (vh.Prop.Concurrent).
+func TestConcTamper(t *testing.T) { prop.Concurrent(t, genPropTamper, 8, 3) }
+
+func genPropTamper(t *rapid.T) Case {
+	s := sxgkit.GenSpec(t)
+	// keep payloads moderate: tamper search benefits from many small cases
+	if s.PayloadLen > 5000 {
+		s.PayloadLen = s.PayloadLen % 5000
+	}
+	if s.Expires-s.Date < 4 {
+		s.Expires = s.Date + 4 // room for date+1 / expires-1 instants
+	}
+	m, tm := genMut(t, s)
+	if s.Fixture == 5 && m.Class == "fetcher" && m.Fixture == 3 {
+		m.Fixture = 2
+	}
+	return Case{Spec: *s, Mut: m, Time: tm, Parsed: rapid.Bool().Draw(t, "parsed"), SigCopies: rapid.SampledFrom([]int{0, 0, 0, 2, 3}).Draw(t, "sigcopies")}
 }
 
 // exhaustive single-bit flips (and in thorough: truncations, deletions) of small base files
